@@ -4,6 +4,7 @@ import (
 	"encoding/json"
 	"fmt"
 	"os"
+	"os/exec"
 	"path/filepath"
 	"strconv"
 	"strings"
@@ -90,5 +91,26 @@ func passthrough() int {
 		return 2
 	}
 	fmt.Println("passthrough: go-sse's suite passes on the instrumented copy (hooks in pass-through mode)")
+	return 0
+}
+
+// conformance compares simnet's model of net/http with the real thing over
+// loopback (DESIGN.md 2.5). It can only warn: exit status is 0 unless the
+// probe could not run at all.
+func conformance() int {
+	bin := build(false)
+	defer cleanup()
+	cmd := exec.Command(bin, "-test.run", "^TestConformance$", "-test.v", "-test.timeout", "120s")
+	cmd.Env = append(os.Environ(), "VERIF_CONFORMANCE=1")
+	out, err := cmd.CombinedOutput()
+	for _, l := range strings.Split(string(out), "\n") {
+		if strings.Contains(l, "agrees") || strings.Contains(l, "DISAGREES") || strings.Contains(l, "WARNING") || strings.Contains(l, "all ") {
+			fmt.Println(strings.TrimSpace(l))
+		}
+	}
+	if err != nil {
+		fmt.Printf("conformance probe could not complete: %v\n%s\n", err, tail(string(out), 20))
+		return 2
+	}
 	return 0
 }
